@@ -53,4 +53,8 @@ Probe == RunLetters(l, nmt, ProbeLetters, <<>>)
 Cfg == [n |-> NodeId0, ident |-> Ident]
 EmitEdge == hist = <<>> \/ PrintT(<<"EDGE", ToJson([c |-> Cfg, s |-> prev, e |-> hist[Len(hist)], d |-> ViewG, p |-> Probe])>>)
 EmitWalk == Len(hist) < WalkLen \/ (PrintT(<<"WALK", ToJson([c |-> Cfg, h |-> hist, p |-> Probe])>>) /\ FALSE)
+\* VIEW of the model-checking configurations: TLC evaluates invariants only on states it has not seen before, and "seen" is
+\* decided on the VIEW; a step verdict kept in a ghost variable must therefore be part of it, or a violating edge INTO A KNOWN
+\* STATE would be discarded unexamined (the generation configurations keep the plain View: the verdict is not behaviour)
+ViewM == <<View, gh>>
 =============================================================================
